@@ -33,6 +33,7 @@ struct context_t
     tensor4d_t                              predictions, reference;
     indices_t                               features, ref_features;
     bool                                    have_ref = false;
+    tensor_size_t                           samples = 16;
     int                                     violations_here = 0;
     uint64_t                                preempted = 0;
 };
@@ -128,7 +129,7 @@ bool after(void* p, const int* ch, const int n)
 void setup(context_t& c)
 {
     sched::set_hw_threads(2);
-    c.source   = vt::make_model_source(24, 0, true);
+    c.source   = vt::make_model_source(c.samples, 0, true);
     c.loss     = loss_t::all().get("mse");
     c.have_ref = false;
     c.violations_here = 0;
@@ -191,6 +192,7 @@ int main(int argc, char** argv)
         {
             return 2;
         }
+        c.samples = static_cast<tensor_size_t>(args.geti("samples", 16));
         setup(c);
         sched::config_t sc;
         sc.budget    = c.cfg.budget;
@@ -203,12 +205,14 @@ int main(int argc, char** argv)
         r.traces      = 1;
         return r.finish();
     }
+    c.samples         = static_cast<tensor_size_t>(args.geti("samples", 16));
     const int horizon = static_cast<int>(args.geti("horizon", 1000000));
     const int budget  = static_cast<int>(args.geti("budget", 1));
     r.axis("models", jstr("ridge (local-search tuner, 2 folds), gboost{stump,dense-table} (10 rounds)"));
     r.axis("pools", jstr("dataset pool 2 workers, ml::tune pool 2 workers (hardware_concurrency interposed)"));
     r.axis("horizon_decisions", jint(horizon));
     r.axis("deviation_budget", jint(budget));
+    r.axis("samples", jint(c.samples));
     for (int model = 0; model < 2; ++model)
     {
         c.cfg.model   = model;
